@@ -138,7 +138,7 @@ Definition unassoc (h : nat) (l : list (nat * nat)) : list (nat * nat) :=
 
 Definition ret_allowed (op : apiop) (r : apires) : bool :=
   match op, r with
-  | AOpen, ROk => true
+  | AOpen, (ROk | RErr) => true          (* a first load that lost every race reports an error *)
   | (AAdd _ _ | AAddMulti _ _), (ROk | RLockFailure) => true
   | AAddEmpty, (ROk | RLockFailure) => true
   | AAddBad, (RRejected | RLockFailure) => true
@@ -202,6 +202,11 @@ Record c10_state := { cx_commits : list nat; cx_pending : list (nat * nat);
                       cx_seen : list (nat * nat);            (* handle -> number of commits its last read showed *)
                       cx_versions : list (list nat) }.        (* every content tables.list ever had *)
 
+(* a return ends the handle's call: forget its pending Add (as c04_loop does) *)
+Definition cx_clr (h : nat) (st : c10_state) : c10_state :=
+  {| cx_commits := cx_commits st; cx_pending := unassoc h (cx_pending st);
+     cx_seen := cx_seen st; cx_versions := cx_versions st |}.
+
 Fixpoint c10_loop (init : bool) (st : c10_state) (tr : list event) : bool :=
   match tr with
   | [] => true
@@ -229,10 +234,12 @@ Fixpoint c10_loop (init : bool) (st : c10_state) (tr : list event) : bool :=
            | None, [] => true
            | _, _ => false
            end)
-          && c10_loop init {| cx_commits := cx_commits st; cx_pending := cx_pending st;
-                              cx_seen := (h, k) :: unassoc h (cx_seen st); cx_versions := cx_versions st |} t
+          && c10_loop init (cx_clr h {| cx_commits := cx_commits st; cx_pending := cx_pending st;
+                                        cx_seen := (h, k) :: unassoc h (cx_seen st); cx_versions := cx_versions st |}) t
       end
-  | ERet h ARead _ :: t => false                       (* a read failed *)
+  | ERet h ARead RNoStack :: t => c10_loop init (cx_clr h st) t      (* no stack to read through: not a failed read *)
+  | ERet h ARead _ :: t => false                                     (* a read failed *)
+  | ERet h _ _ :: t => c10_loop init (cx_clr h st) t
   | EMem h names closed :: t =>
       Nat.eqb closed 0 && existsb (list_nat_eqb names) (cx_versions st) && c10_loop init st t
   | EViol :: _ => false
@@ -303,6 +310,8 @@ Fixpoint c09_loop (cur : snapshot) (mems : list (nat * list nat)) (tr : list eve
   | [] => true
   | ESnap s :: t => c09_loop s mems t
   | EMem h names _ :: t => c09_loop cur ((h, names) :: filter (fun x => negb (Nat.eqb h (fst x))) mems) t
+  | ERet h AClose _ :: t => c09_loop cur (filter (fun x => negb (Nat.eqb h (fst x))) mems) t
+  | ERet h AOpen RErr :: t => c09_loop cur (filter (fun x => negb (Nat.eqb h (fst x))) mems) t
   | ECall h (AAdd tx _) :: t =>
       let held := fold_right (fun x acc => if Nat.eqb h (fst x) then Some (snd x) else acc) None mems in
       (match held, alone_until_ret h t [] with
@@ -323,6 +332,48 @@ Fixpoint c09_loop (cur : snapshot) (mems : list (nat * list nat)) (tr : list eve
   | _ :: t => c09_loop cur mems t
   end.
 Definition c09_ok (tr : list event) : bool := c09_loop snap0 [] tr.
+
+(* the same with "directory unchanged" read as: tables.list unchanged, nothing
+   new, and the only files that went away are table files the list does not
+   name (a failed Add's reload also unlinks the tables it held that a finished
+   compaction of somebody else has already dropped from the list) *)
+Definition snap_gc (after before : snapshot) : bool :=
+  (match sn_list after, sn_list before with
+   | Some x, Some y => list_nat_eqb x y
+   | None, None => true
+   | _, _ => false end)
+  && forallb (fun p => existsb (path_eqb p) (sn_files before)) (sn_files after)
+  && forallb (fun p => existsb (path_eqb p) (sn_files after)
+                       || (match p with PT n => negb (mem_nat n (listed before)) | _ => false end))
+             (sn_files before).
+
+Fixpoint c09_loop_gc (cur : snapshot) (mems : list (nat * list nat)) (tr : list event) : bool :=
+  match tr with
+  | [] => true
+  | ESnap s :: t => c09_loop_gc s mems t
+  | EMem h names _ :: t => c09_loop_gc cur ((h, names) :: filter (fun x => negb (Nat.eqb h (fst x))) mems) t
+  | ERet h AClose _ :: t => c09_loop_gc cur (filter (fun x => negb (Nat.eqb h (fst x))) mems) t
+  | ERet h AOpen RErr :: t => c09_loop_gc cur (filter (fun x => negb (Nat.eqb h (fst x))) mems) t
+  | ECall h (AAdd tx _) :: t =>
+      let held := fold_right (fun x acc => if Nat.eqb h (fst x) then Some (snd x) else acc) None mems in
+      (match held, alone_until_ret h t [] with
+       | Some names, Some (evs, r, rest) =>
+           if negb (list_nat_eqb names (listed cur)) then
+             (* stale and undisturbed: lock failure, directory unchanged, handle refreshed *)
+             (match r with RLockFailure => true | _ => false end)
+             && snap_gc (last_snap evs cur) cur
+             && (match rest with
+                 | EMem h' names' _ :: _ => Nat.eqb h h' && list_nat_eqb names' (listed cur)
+                 | _ => false
+                 end)
+           else if existsb (path_eqb PLL) (sn_files cur) then true      (* somebody holds the write lock *)
+           else (* up to date, lock free, undisturbed: the Add commits *)
+             (match r with ROk => true | _ => false end)
+       | _, _ => true
+       end) && c09_loop_gc cur mems t
+  | _ :: t => c09_loop_gc cur mems t
+  end.
+Definition c09_ok_gc (tr : list event) : bool := c09_loop_gc snap0 [] tr.
 
 (* ---------------- C06: crash atomicity = C04 and C05 on traces with crashes, and the survivors' calls succeed ---------------- *)
 Definition c06_ok (tr : list event) : bool := c04_ok tr && c05_ok tr && c10_ok tr.
